@@ -708,6 +708,26 @@ Section Dedup.
     - subst i. apply fold_add_ids_acc, add_atom_ids_new, Hi.
     - apply IH; assumption.
   Qed.
+  Lemma add_atom_ids_sub (g : list atomT) a i : In i (map a_id (add_atom g a)) -> In i (map a_id g) \/ (i = a_id a /\ (0 <= i)%Z).
+  Proof.
+    unfold add_atom. destruct (Z.ltb (a_id a) 0) eqn:E; [left; assumption|]. apply Z.ltb_ge in E.
+    destruct (has_id g (a_id a)); [left; assumption|]. rewrite map_app. intros H. apply in_app_or in H.
+    destruct H as [H|[H|[]]]; [left; exact H | right; split; [symmetry; exact H | rewrite <- H; exact E]].
+  Qed.
+  Lemma fold_add_ids_sub (l : list atomT) acc i : In i (map a_id (fold_left add_atom l acc)) ->
+    In i (map a_id acc) \/ (In i (map a_id l) /\ (0 <= i)%Z).
+  Proof.
+    revert acc. induction l as [|a l IH]; intros acc H; cbn [fold_left map] in *; [left; exact H|].
+    apply IH in H. destruct H as [H|[H Hp]]; [|right; split; [right; exact H | exact Hp]].
+    apply add_atom_ids_sub in H. destruct H as [H|[-> Hp]]; [left; exact H | right; split; [left; reflexivity | exact Hp]].
+  Qed.
+  (* the group holds exactly the selected atoms with a valid id *)
+  Lemma mk_group_ids (l : list atomT) i : In i (map a_id (mk_group l)) <-> In i (map a_id l) /\ (0 <= i)%Z.
+  Proof.
+    unfold mk_group. split.
+    - intros H. apply fold_add_ids_sub in H. destruct H as [[]|H]. exact H.
+    - intros [H Hp]. apply fold_add_ids_list; assumption.
+  Qed.
   Lemma add_atom_negative (g : list atomT) a : (a_id a < 0)%Z -> add_atom g a = g.
   Proof. intros H. unfold add_atom. apply Z.ltb_lt in H. rewrite H. reflexivity. Qed.
 
